@@ -20,7 +20,7 @@ verify_resume_mic is cut by its success edge; (g) verification results are never
 """
 CLAUSES = ['a: session completed only on verification success', 'b: chain validated against the addressed fabric root',
            'c: proof of possession over both ephemeral keys', 'd: session identity from certificate / record (a record enters the resumption cache whole)',
-           'f: resumption gated by Resume1MIC', 'g: verification results not dropped']
+           'f: resumption gated by Resume1MIC', 'g: verification results not dropped', 'h: the chain verifier checks every step (shared with C19-a)']
 NOT_DECIDED = ['cryptographic soundness', 'mutated message yields same session or none', 'equal directional keys at both ends',
                'loss / reordering schedules']
 THOROUGH_CONFIGS = ['q', 'd', 'r']
@@ -241,6 +241,14 @@ def check(R):
                 result_used(R, 'P8', b, (c,))
                 n += 1
     R.floor('P8 verification call sites', n, 10)
+
+    # ---- h: the chain verifier itself (shared with C19-a) ------------------------------------
+    with R.clause('h'):
+        # "an operational certificate chain that verifies up to the root": validate_certs only delegates to CertVerifier - its per-step
+        # rules (authority link, signature, validity window, usage policy, path length and depth bookkeeping) are part of this property
+        from C19 import chain_step_rules
+        chain_step_rules(R)
+
 
 
 def _reaches(body, frm, tos):
